@@ -5,6 +5,7 @@ package vc
 import (
 	"fmt"
 	"regexp"
+	"sort"
 	"go/ast"
 	"go/token"
 	"go/types"
@@ -1194,7 +1195,159 @@ var preludeFuns = map[string]preludeFun{}
 
 var mathNames = map[string]bool{"ln": true, "exp": true, "log2": true, "exp2": true, "cbrt": true, "sqrt": true, "pow": true}
 
+// opaqueApp: a ground first argument x of some opaque function of a package (for automatic framing at calls).
+type opaqueApp struct {
+	pi *PkgInfo
+	x  *Val
+}
+
+func (c *Ctx) recordOpaqueApp(pi *PkgInfo, sf *SpecFun, args []*Val) {
+	if c.inAutoFrame || c.phDepth > 0 || len(args) == 0 {
+		return
+	}
+	x := args[0]
+	if x.K != VScalar || x.T.S == "" || x.Typ == nil {
+		return
+	}
+	if c.capturesBound(x.T.S, nil) || strings.Contains(x.T.S, "ph!") {
+		return
+	}
+	key := pi.Name + "|" + x.T.S
+	if c.opaqueSeen == nil {
+		c.opaqueSeen = map[string]bool{}
+	}
+	if c.opaqueSeen[key] {
+		return
+	}
+	c.opaqueSeen[key] = true
+	c.opaqueApps = append(c.opaqueApps, opaqueApp{pi, x})
+}
+
+// autoFrame: called right after the heap effect of a call has been applied (c.Fr.OldHeap is the pre-call heap).
+// For every ground x some opaque function of package P has been applied to, and every opaque function F of P:
+// if footprint(x) (in the pre-call state) is disjoint from what the call may modify, F(x, ...) keeps its value.
+// Justified by the framing lemma of the declaring package (store.SFrame), which is proved.
+func (c *Ctx) autoFrame(entries []ModEntry) {
+	if len(c.opaqueApps) == 0 || c.inAutoFrame {
+		return
+	}
+	c.inAutoFrame = true
+	defer func() { c.inAutoFrame = false }()
+	apps := append([]opaqueApp{}, c.opaqueApps...)
+	for _, app := range apps {
+		x := app.x
+		var cond Term
+		func() {
+			defer func() {
+				if r := recover(); r != nil {
+					if _, isRef := r.(refusal); isRef {
+						cond = False
+						return
+					}
+					panic(r)
+				}
+			}()
+			savedOld := c.inOld
+			c.inOld = true
+			fx := c.footprintEntries(x, nil, True, "autoframe")
+			c.inOld = savedOld
+			var conj []Term
+			for _, p := range fx {
+				for _, e := range entries {
+					if e.all {
+						conj = append(conj, False)
+						continue
+					}
+					share := false
+					for _, h1 := range p.heaps {
+						for _, h2 := range e.heaps {
+							if h1.name == h2.name {
+								share = true
+							}
+						}
+					}
+					if !share {
+						continue
+					}
+					vars := append(append([]Term{}, p.qvars...), e.qvars...)
+					conj = append(conj, Forall(vars, Implies(And(p.guard, e.guard), Or(Not(Eq(p.id, e.id)), Eq(p.id, IntLit(0))))))
+				}
+			}
+			cond = And(conj...)
+		}()
+		if cond.B != nil && !*cond.B {
+			continue
+		}
+		// name the condition once
+		if cond.B == nil {
+			cn := c.fresh("framed", SBool)
+			c.assume(Eq(cn, cond))
+			cond = cn
+		}
+		var names []string
+		for n := range app.pi.Spec.Funs {
+			names = append(names, n)
+		}
+		sort.Strings(names)
+		for _, n := range names {
+			sf := app.pi.Spec.Funs[n]
+			if !sf.Opaque || sf.Body == nil || len(sf.Params) == 0 {
+				continue
+			}
+			func() {
+				defer func() {
+					if r := recover(); r != nil {
+						if _, isRef := r.(refusal); isRef {
+							return
+						}
+						panic(r)
+					}
+				}()
+				// the first parameter must accept x
+				saved := c.Fr
+				c.Fr = &Frame{Pkg: app.pi, Vars: map[types.Object]*Val{}, Boxed: map[types.Object]Term{}, ByName: map[string][]types.Object{},
+					Ghost: map[string]*Val{}, Ints: app.pi.Spec.Ints, Floats: app.pi.Spec.Floats, OldHeap: saved.OldHeap, OldTop: saved.OldTop}
+				pt, _ := c.specSort(sf.Params[0].Type)
+				args := []*Val{x}
+				var extra []Term
+				okT := pt != nil && x.Typ != nil && types.AssignableTo(x.Typ, pt)
+				if okT {
+					for _, p := range sf.Params[1:] {
+						bv, ts := c.bindVar(p, "q")
+						args = append(args, bv)
+						extra = append(extra, ts...)
+					}
+				}
+				c.Fr = saved
+				if !okT {
+					return
+				}
+				savedOld := c.inOld
+				c.inOld = true
+				pre := c.applySpecFun(app.pi, sf, args)
+				c.inOld = false
+				post := c.applySpecFun(app.pi, sf, args)
+				c.inOld = savedOld
+				if pre.K != VScalar && pre.K != VLogic {
+					return
+				}
+				if pre.T.S == post.T.S {
+					return
+				}
+				eq := StructEq(post.T, pre.T)
+				if len(extra) > 0 {
+					eq = Forall(extra, eq, []Term{post.T})
+				}
+				c.assume(Implies(cond, eq))
+			}()
+		}
+	}
+}
+
 func (c *Ctx) applySpecFun(pi *PkgInfo, sf *SpecFun, args []*Val) *Val {
+	if c.isOpaqueHere(pi, sf) {
+		c.recordOpaqueApp(pi, sf, args)
+	}
 	if len(args) != len(sf.Params) {
 		c.refuse("spec function %s: expected %d arguments, got %d", sf.Name, len(sf.Params), len(args))
 	}
@@ -1243,13 +1396,18 @@ func (c *Ctx) applySpecFun(pi *PkgInfo, sf *SpecFun, args []*Val) *Val {
 	c.specDepth++
 	defer func() { c.specDepth-- }()
 	c.bound = env
-	if !sf.View && c.isOpaqueHere(pi, sf) {
+	if c.isOpaqueHere(pi, sf) {
 		// a name for the function in the current state: an uninterpreted symbol applied to the arguments.
-		// The state is identified by the expansion of the body over placeholder arguments.
+		// The state is identified by the expansion of the body over placeholder arguments. For a view function
+		// the symbol yields the logical array over the last parameter.
 		penv := &specEnv{vars: map[string]*Val{}}
 		var ph []Term
 		ok := true
-		for i, p := range sf.Params {
+		nfix := len(sf.Params)
+		if sf.View {
+			nfix--
+		}
+		for i, p := range sf.Params[:nfix] {
 			a := env.vars[p.Name]
 			if a.K != VScalar && a.K != VLogic {
 				ok = false
@@ -1262,6 +1420,20 @@ func (c *Ctx) applySpecFun(pi *PkgInfo, sf *SpecFun, args []*Val) *Val {
 			penv.vars[p.Name] = &na
 			ph = append(ph, t)
 		}
+		var lastTs []Term
+		if ok && sf.View {
+			last := sf.Params[nfix]
+			if env.vars[last.Name].K != VScalar {
+				ok = false
+			} else {
+				c.nbound++
+				_, srt := c.specSort(last.Type)
+				t := Term{S: fmt.Sprintf("ph!%d!%d", nfix, c.nbound), Sort: srt}
+				lt, _ := c.specSort(last.Type)
+				penv.vars[last.Name] = Scalar(t, lt)
+				lastTs = []Term{t}
+			}
+		}
 		if ok {
 			c.bound = penv
 			n0 := len(c.St.Path)
@@ -1269,13 +1441,13 @@ func (c *Ctx) applySpecFun(pi *PkgInfo, sf *SpecFun, args []*Val) *Val {
 			c.phDepth++
 			b := c.evalSpec(sf.Body)
 			c.phDepth--
-			c.St.Path = filterPath(c.St.Path, n0, ph)
-			// definitions created while expanding over placeholders are not needed either
+			allPh := append(append([]Term{}, ph...), lastTs...)
+			c.St.Path = filterPath(c.St.Path, n0, allPh)
 			var keepDefs []Term
 			for j, d := range c.defs {
 				bad := false
 				if j >= nd {
-					for _, t := range ph {
+					for _, t := range allPh {
 						if containsSym(d.S, t.S) {
 							bad = true
 						}
@@ -1289,12 +1461,21 @@ func (c *Ctx) applySpecFun(pi *PkgInfo, sf *SpecFun, args []*Val) *Val {
 			c.bound = env
 			if b.K == VScalar || b.K == VLogic {
 				key := b.T.S
-				for i, t := range ph {
+				for i, t := range allPh {
 					key = strings.ReplaceAll(key, t.S, fmt.Sprintf("!P%d", i))
 				}
 				key = "opqf:" + sf.Name + ":" + normPh(key)
 				if c.lambdaCache == nil {
 					c.lambdaCache = map[string]Term{}
+				}
+				rs := b.T.Sort
+				if sf.Ret != "" {
+					if _, s2 := c.specSort(sf.Ret); s2 != "" {
+						rs = s2
+					}
+				}
+				if sf.View {
+					rs = ArrSort(lastTs[0].Sort, rs)
 				}
 				f, have := c.lambdaCache[key]
 				if !have {
@@ -1304,27 +1485,24 @@ func (c *Ctx) applySpecFun(pi *PkgInfo, sf *SpecFun, args []*Val) *Val {
 					for _, t := range ph {
 						as = append(as, t.Sort)
 					}
-					rs := b.T.Sort
-					if sf.Ret != "" {
-						if _, s2 := c.specSort(sf.Ret); s2 != "" {
-							rs = s2
-						}
-					}
 					c.declareFun(name, as, rs)
 					f = Term{S: name, Sort: rs}
 					c.lambdaCache[key] = f
 				}
 				var actual []Term
-				for _, p := range sf.Params {
+				for _, p := range sf.Params[:nfix] {
 					actual = append(actual, env.vars[p.Name].T)
 				}
 				r := App(f.Sort, f.S, actual...)
-				if f.Sort.IsArray() {
-					return &Val{K: VLogic, T: r}
-				}
 				var rt types.Type
 				if sf.Ret != "" {
 					rt, _ = c.specSort(sf.Ret)
+				}
+				if sf.View {
+					return Scalar(Select(r, env.vars[sf.Params[nfix].Name].T), rt)
+				}
+				if f.Sort.IsArray() {
+					return &Val{K: VLogic, T: r}
 				}
 				return Scalar(r, rt)
 			}
